@@ -10,8 +10,8 @@ func init() {
 	prop("C06", []string{"R-SHARED", "R-POOL", "R-NOGO"},
 		"no unsynchronised write to memory reachable from the shared compiled Regex/Engine (or a package variable) on any path from any search, enumeration or replace method, over all strategies (R-SHARED); no goroutine is started on a search path (R-NOGO); pooled per-search state is never used after it was handed back (another goroutine may own it) and never handed back twice, including inside the hand-back wrappers (R-POOL).",
 		"that every call returns its sequential result beyond the absence of shared writes; races inside the Go runtime/stdlib; Stats()/ResetStats() (documented unsafe, not search methods).")
-	prop("C16", []string{"R-GATE", "R-LITTRUNC", "R-ASMSTORE"},
-		"no literal sequence that may have dropped alternatives reaches the prefilter builder or a stored verification literal without a dominating coverage test (R-GATE); literal-list and literal-byte truncation always clears the covering/complete promise (R-LITTRUNC), so a 'complete' prefilter is built from untruncated literals; the Teddy assembly kernels store only to their frame, results and the candidate buffer (R-ASMSTORE).",
+	prop("C16", []string{"R-GATE", "R-LITTRUNC", "R-PFOFFSET", "R-ASMSTORE"},
+		"no literal sequence that may have dropped alternatives reaches the prefilter builder or a stored verification literal without a dominating coverage test (R-GATE); literal-list and literal-byte truncation always clears the covering/complete promise (R-LITTRUNC), so a 'complete' prefilter is built from untruncated literals; every Find/FindMatch implementation guards its re-slice, returns positions that depend on the start offset and reads look-behind bytes from the full haystack (R-PFOFFSET); the Teddy assembly kernels store only to their frame, results and the candidate buffer (R-ASMSTORE).",
 		"fingerprint/bucket correctness of Teddy, Aho-Corasick and memmem results, 'smallest position at or after the offset' (value-level), SIMD = scalar equality.")
 	prop("C17", []string{"R-LITTRUNC", "R-GATE", "R-CLONE", "R-FOLD"},
 		"every shortening of a literal list marks partial coverage on every path, no collection loop returns a partial collection, every shortening of literal bytes clears Complete (R-LITTRUNC); partial sets are not consumed as covering sets (R-GATE); clones of a literal sequence carry every field, in particular the partial-coverage flag (R-CLONE); case-fold variants come from unicode.SimpleFold on every path (R-FOLD).",
@@ -19,8 +19,8 @@ func init() {
 	prop("C12", []string{"R-LITTRUNC", "R-GATE", "R-CLONE", "R-SIBLING", "R-ASCIIGUARD"},
 		"the literal-count and literal-length limits (MaxLiterals, MaxLiteralLen, cross-product limit) can only shrink what a prefilter promises, never make a non-covering set look covering or a truncated literal look complete, and a partial set never gates a search (R-LITTRUNC, R-GATE, R-CLONE); the offset/state variants of each strategy helper consult the same engine flags as the base variant (R-SIBLING); the ASCII-only automaton (EnableASCIIOptimization) runs only on slices proven ASCII in full (R-ASCIIGUARD).",
 		"equality of results under DFA on/off, state limits, ASCII optimisation, CPU feature masking: value-level and declined.")
-	prop("C19", []string{"R-DISTINGUISH", "R-ASTWALK"},
-		"every fast-path family reads the pattern datum its answer depends on (lazy flag, case folding, repeat bounds) per the frozen table of fast paths (R-DISTINGUISH); every contains-detector that routes patterns away from engines that cannot express them descends into every operator with children (R-ASTWALK).",
+	prop("C19", []string{"R-DISTINGUISH", "R-ASTWALK", "R-RUNEBYTE"},
+		"every fast-path family reads the pattern datum its answer depends on (lazy flag, case folding, repeat bounds) per the frozen table of fast paths (R-DISTINGUISH); every contains-detector that routes patterns away from engines that cannot express them descends into every operator with children (R-ASTWALK); byte tables of the fast paths only receive runes bounded by 0x7F (R-RUNEBYTE).",
 		"that the accepted fragment equals the implemented fragment beyond the data read (e.g. what may follow or sit between recognised parts), span arithmetic of each searcher.")
 	prop("C09", []string{"R-EXHAUST"},
 		"the NFA compiler's operator switch covers every operator regexp/syntax can emit and rejects unknown ones with an error (R-EXHAUST a).",
@@ -28,14 +28,17 @@ func init() {
 	prop("C11", []string{"R-EXHAUST", "R-SIBLING"},
 		"every per-strategy dispatcher (IsMatch, Find at zero/non-zero, FindIndices, FindIndicesAt, with-state) either handles every strategy or falls to the universal NFA helper (R-EXHAUST b); the X / XAt / XAtWithState variants behind Find vs FindAll/Count consult the same guard flags (R-SIBLING).",
 		"the relational equalities themselves (Match <=> FindIndex != nil, prefix property of FindAll, Count = len(FindAll)).")
-	prop("C15", []string{"R-FOLD", "R-ASCIIGUARD"},
-		"case-insensitive literals are compiled/extracted through unicode.SimpleFold on every path (R-FOLD); the ASCII-only automaton runs only on slices proven ASCII (R-ASCIIGUARD).",
+	prop("C15", []string{"R-FOLD", "R-ASCIIGUARD", "R-RUNEBYTE"},
+		"case-insensitive literals are compiled/extracted through unicode.SimpleFold on every path (R-FOLD); the ASCII-only automaton runs only on slices proven ASCII (R-ASCIIGUARD); a rune is narrowed to a byte / byte-table index only under a bound of 0x7F (R-RUNEBYTE).",
 		"the UTF-8 range-splitting tables of compileUTF8Range* (a finite numerical fact over 1.1M code points), invalid-byte-as-U+FFFD behaviour: the core of C15 is declined.")
+	prop("C03", []string{"R-SCRATCHINIT", "R-ENTRYCONFIG"},
+		"the capture working buffers (PikeVM currSlots, one-pass cache slots, pooled onepassSlots) start every search and every new seed from the not-participating sentinel on every path, per iteration where the loop overwrites them (R-SCRATCHINIT); every capture entry point re-establishes the slot-table width it reads (R-ENTRYCONFIG). Both are necessary for 'non-participating groups are -1' and 'NumSubexp()+1 groups reported' independent of earlier calls.",
+		"capture positions themselves, last-iteration semantics, compileStarViaPlus closure order, one-pass slot masks: value-level and declined.")
 	prop("C05", []string{"R-RECURSION", "R-EPOCH"},
 		"every search-time recursion (call-graph cycle reachable from a search root) is guarded by a visited test-and-set gate on every path to the recursive call (R-RECURSION); the visited epoch of the backtracker is never advanced inside a start-position loop that calls the gated recursion, and every advance handles wrap-around (R-EPOCH).",
 		"the constant K and every value-dependent loop count (candidate loops of the reverse strategies, prefilter rescans); polynomial compile time. This is the weakest claim relative to the property: it decides two necessary conditions of the visited-table bound only.")
-	prop("C13", []string{"R-RESET", "R-EPOCH", "R-ENTRYCLEAR", "R-POOL", "R-SHARED"},
-		"every clearing method of a per-search cache resets every memo field its siblings populate (R-RESET); visited-epoch wrap handling (R-EPOCH a); every NFA-simulation driver clears its visited set and truncates its thread queues before first use on every path (R-ENTRYCLEAR); pooled state is handed back exactly once and not used afterwards (R-POOL); no shared scratch carries history between calls (R-SHARED).",
+	prop("C13", []string{"R-RESET", "R-EPOCH", "R-ENTRYCLEAR", "R-SCRATCHINIT", "R-ENTRYCONFIG", "R-POOL", "R-SHARED"},
+		"every clearing method of a per-search cache resets every memo field its siblings populate (R-RESET); visited-epoch wrap handling (R-EPOCH a); every NFA-simulation driver clears its visited set and truncates its thread queues before first use on every path (R-ENTRYCLEAR); recycled scratch slices (capture slot buffers) are constant-filled before every use, per iteration where a loop overwrites them (R-SCRATCHINIT); per-search mode fields (active slot width) are re-established by every entry that reads them (R-ENTRYCONFIG); pooled state is handed back exactly once and not used afterwards (R-POOL); no shared scratch carries history between calls (R-SHARED).",
 		"that stale values in reused-but-not-cleared buffers are never read (value-level); GC interaction with sync.Pool; adaptive prefilter trackers.")
 	prop("C14", []string{"R-RESET"},
 		"cache clearing is complete: no transition/state memo of the lazy DFA cache survives Clear/ClearKeepMemory/Reset with recycled state ids (R-RESET), a necessary condition of 'exact under every cache capacity'.",
@@ -43,8 +46,8 @@ func init() {
 	prop("C20", []string{"R-POOL", "R-BOUND"},
 		"per-search state obtained from the pools is handed back on every path to return (R-POOL a): a leaked state is re-created by Pool.New on every call, so the documented zero-allocation calls would allocate in steady state; the visited table is allocated only for a length that passed the capacity predicate, and every growth of the DFA cache is dominated by the within-capacity edge of its byte-budget test (R-BOUND).",
 		"the numeric bounds (cache capacity + one state, visited cap), heap held per Regex, allocation under cache churn.")
-	prop("C07", []string{"R-RO", "R-ASMSTORE"},
-		"no write reachable from a search root targets the caller's haystack/pattern/template bytes, including strings viewed as []byte (R-RO); every memory-destination instruction of the assembly kernels writes only its own frame, a result slot or a designated non-byte output buffer (R-ASMSTORE).",
+	prop("C07", []string{"R-RO", "R-ASMSTORE", "R-PFOFFSET", "R-SCRATCHINIT"},
+		"no write reachable from a search root targets the caller's haystack/pattern/template bytes, including strings viewed as []byte (R-RO); every memory-destination instruction of the assembly kernels writes only its own frame, a result slot or a designated non-byte output buffer (R-ASMSTORE); candidate finders compare the start offset with len(haystack) before re-slicing (R-PFOFFSET a); capture scratch is reset before use so reported capture spans cannot come from an earlier, longer haystack (R-SCRATCHINIT).",
 		"over-reads of the vector kernels, implicit panics (index/nil), stack exhaustion, well-formedness of returned spans (value-level).")
 	prop("C18", []string{"R-ASMSTORE"},
 		"the write half of 'touches no memory outside the slice': no assembly routine stores through an address derived from its []byte or mask parameters or of unknown provenance (R-ASMSTORE).",
